@@ -318,6 +318,7 @@ def run_c17(chk: Check) -> int:
         t5, n5 = collect(chk, 5, 25)
         traces += t5
         nexec += n5
+    validate_against_task_model(chk, every=3 if quick else 1, nscripts=96 if quick else None)
     cyc = [100, 1000] if quick else [100, 1000, 10000]
     with mp.Pool(8) as pool:
         longs = pool.map(_long_job, [(c, p, CFGS[0]) for c in cyc for p in ("fail_ok_loss", "ok_loss", "mixed")])
@@ -441,3 +442,97 @@ def replay_c18(chk, rp):
             chk.violation(f"backoff-{v['clause']}", f"still rejected: {v}", {"kind": "backoff-trace", "trace": nt, "verdict": v})
         return chk.finish(rule="replay")
     return replay_any(chk, rp, ("C18",))
+
+
+# ----------------------------------------------------------------------------- conformance with the task model (DRIFT level)
+TASK_CFG = {"max_delay": 4, "threshold": 3, "sleep": 5}      # must equal the constants of spec/conn/Trace_ConnTasks.cfg
+
+
+def _job_tasks(args):
+    import logging
+    logging.disable(logging.CRITICAL)
+    scripts, every = args
+    out = []
+    for outcomes, lifetimes in scripts:
+        base, its, ret_it = trace_of(outcomes, lifetimes, None, TASK_CFG, "tasks:noclose", horizon=14.0, tail=1.0)
+        out.append(base)
+        for k in range(0, min(ret_it + 2, its), every):
+            t, _, _ = trace_of(outcomes, lifetimes, k, TASK_CFG, f"tasks:close@{k}", horizon=14.0, tail=1.0)
+            out.append(t)
+    return out
+
+
+def validate_against_task_model(chk: Check, every: int = 3, nscripts: int | None = None):
+    """code -> spec, implementation level: every recorded execution must be a behaviour of ConnMgrTasks (silent internal
+    steps allowed, bounded by the next logged time stamp).  A rejection is DRIFT, never a VIOLATION."""
+    import json
+    import os
+    from . import tlc
+    scripts = [(o, l) for o in itertools.product(OUTCOMES, repeat=3) for l in ((None,) * 8, (1,) * 8, (4, 1, None, 2, 2, 2, 2, 2), (2, 6, 1, 1, None, 1, 1, 1))]
+    chk.rng.shuffle(scripts)
+    if nscripts:
+        scripts = scripts[:nscripts]
+    with mp.Pool(16) as pool:
+        res = pool.map(_job_tasks, [(scripts[j::32], every) for j in range(32)])
+    traces = []
+    seen = set()
+    for r in res:
+        for t in r:
+            evs = [e for e in t["events"] if e["e"] != "end"]
+            key = json.dumps(evs)
+            if key in seen or t["error"]:
+                continue
+            seen.add(key)
+            traces.append({"id": t["id"], "script": t["script"], "events": evs})
+    # canary: an attempt moved one second earlier cannot be explained by the task model
+    import copy
+    can = None
+    for t in traces:
+        idx = [k for k, e in enumerate(t["events"]) if e["e"] == "attempt" and e["t"] >= 1000]
+        if idx:
+            can = copy.deepcopy(t)
+            can["id"] = "canary-early-attempt"
+            for e in can["events"][idx[0]:idx[0] + 1]:
+                e["t"] -= 1000
+            break
+    shards = [traces[j::16] for j in range(16)]
+    if can:
+        shards[0] = shards[0] + [can]
+
+    def one(args):
+        k, sh = args
+        tf = os.path.join(chk.rundir, f"tasktraces-{k}.ndjson")
+        of = os.path.join(chk.rundir, f"taskverdicts-{k}.json")
+        with open(tf, "w") as f:
+            for t in sh:
+                f.write(json.dumps(t, separators=(",", ":")) + "\n")
+        st = tlc.run_model("conn", "Trace_ConnTasks", "Trace_ConnTasks.cfg", rundir=chk.rundir, workers=1, coverage=False, timeout=1500,
+                           env={"TRACE_FILE": tf, "OUT_FILE": of}, xmx="3g", must_pass=False)
+        if not os.path.exists(of):
+            raise tlc.MachineryError(f"Trace_ConnTasks produced no report (shard {k}): {st.get('violated')} see {st['log']}")
+        return json.load(open(of)), st
+
+    from concurrent.futures import ThreadPoolExecutor
+    with ThreadPoolExecutor(max_workers=16) as ex:
+        outs = list(ex.map(one, [(k, sh) for k, sh in enumerate(shards) if sh]))
+    acc = rej = 0
+    states = 0
+    for rep, st in outs:
+        states += st["distinct"]
+        for r in rep:
+            if r["id"] == "canary-early-attempt":
+                if r["reached"] >= r["length"]:
+                    raise tlc.MachineryError("task-model canary (attempt moved one second earlier) was accepted")
+                chk.cov["canaries"]["planted"] += 1
+                chk.cov["canaries"]["rejected"] += 1
+                continue
+            if r["reached"] >= r["length"]:
+                acc += 1
+            else:
+                rej += 1
+                t = next(t for t in traces if t["id"] == r["id"])
+                chk.drift(f"ConnectionManager trace {r['id']} (script {t['script']}) is not a behaviour of the task model ConnMgrTasks: "
+                          f"matched {r['reached']} of {r['length']} events, next event {t['events'][r['reached']] if r['reached'] < len(t['events']) else None}")
+    chk.cov["task_model_validation"] = {"traces": acc + rej, "accepted": acc, "rejected_as_drift": rej, "tlc_states": states}
+    chk.cov["traces_validated_against_impl"] += acc + rej
+    return acc, rej
